@@ -456,6 +456,15 @@ BOUNDARY_FLOATS = [0.5, -0.5, 0.1, 1.5, 3.14, 5e-324, 2.2250738585072014e-308, 1
 
 def gen_number(rng):
     r = rng.random()
+    if r < 0.03:
+        # the doubles next to a whole number (0.9999999999999999, 3.0000000000000004, 4503599627370495.5): not that number
+        import math
+        k = rng.choice((1, 2, 3, 7, 10, 100, 2 ** 31, 2 ** 32, 2 ** 52, 2 ** 52 - 1, rng.randint(1, 2 ** 52), 10 ** rng.randint(1, 15)))
+        f = math.nextafter(float(k), rng.choice((math.inf, -math.inf)))
+        return -f if rng.random() < 0.3 else f
+    if r < 0.06:
+        # few digits and an exponent beyond the powers of ten a double holds exactly (10^22)
+        return float("%de%d" % (rng.randint(1, 10 ** rng.choice((1, 2, 5, 15))), rng.choice((22, 23, 24, 25, 30, -22, -23, -24, -25, -30)))) * rng.choice((1, -1))
     if r < 0.35:
         return rng.randint(-20, 20)
     if r < 0.55:
